@@ -182,6 +182,22 @@ def run(chk, ctx):
             chk.ob('C04.H', 'property count', len(opts) == len(props) and
                    len(gk) == len(props), '%d optional fields, %d flags' %
                    (len(opts), len(gk)))
+    # a header built without properties encodes the empty property set:
+    # the default properties object must be a fresh, default-valued one
+    hci_ = prog.cls('header.ContentHeader')
+    it_ = ctx.interp()
+    st_ = ctx.new_state()
+    it_.pending, it_.stack, it_.cur_module = [], [], hci_.module
+    href_ = it_.instantiate(hci_, [], {}, st_, hci_.node)
+    pr_ = it_.obj(st_, href_).attrs.get('properties')
+    fresh_ = isinstance(pr_, T.Ref) and pr_.id in st_.store and \
+        not it_.obj(st_, pr_).shared
+    chk.ob('C04.H', 'default properties', fresh_,
+           'ContentHeader() gets its own default Basic.Properties (so it '
+           'always encodes flags 0)' if fresh_ else
+           'ContentHeader() shares one Basic.Properties object: what it '
+           'encodes depends on earlier decodes',
+           site='pamqp/header.py')
     chk.floor('C04.H', 17, 'content-header obligations')
 
     # ---- body, heartbeat, protocol header
